@@ -15,9 +15,62 @@ import z3
 from . import theory as T
 from .values import (SV, Ver, DictVal, SetVal, ListVal, PObj, ItemsView, Assoc, AssignVal, Closure, BoundMethod, ClassRef,
                      BuiltinClass, Builtin, ModuleRef, SuperRef, SeqIter, Unsupported, PathInfeasible, VerifBug,
-                     PyExc, is_num, zreal, zint, is_intlike, Opaque)
+                     PyExc, is_num, zreal, zint, is_intlike, Opaque, StarKey)
 from . import folds as FO
 from . import lists as LS
+
+
+_ARITH_KINDS = None
+
+
+def _arith_abstraction(formulas):
+    """see Engine._portfolio (a)"""
+    global _ARITH_KINDS
+    if _ARITH_KINDS is None:
+        _ARITH_KINDS = {z3.Z3_OP_AND, z3.Z3_OP_OR, z3.Z3_OP_NOT, z3.Z3_OP_IMPLIES, z3.Z3_OP_ITE, z3.Z3_OP_TRUE, z3.Z3_OP_FALSE,
+                        z3.Z3_OP_EQ, z3.Z3_OP_DISTINCT, z3.Z3_OP_XOR, z3.Z3_OP_IFF if hasattr(z3, "Z3_OP_IFF") else z3.Z3_OP_EQ,
+                        z3.Z3_OP_LE, z3.Z3_OP_GE, z3.Z3_OP_LT, z3.Z3_OP_GT, z3.Z3_OP_ADD, z3.Z3_OP_SUB, z3.Z3_OP_UMINUS,
+                        z3.Z3_OP_MUL, z3.Z3_OP_DIV, z3.Z3_OP_IDIV, z3.Z3_OP_MOD, z3.Z3_OP_REM, z3.Z3_OP_TO_REAL,
+                        z3.Z3_OP_TO_INT, z3.Z3_OP_IS_INT, z3.Z3_OP_ANUM, z3.Z3_OP_POWER}
+    cache, fresh = {}, {}
+
+    def scalar(sort):
+        return sort.kind() in (z3.Z3_BOOL_SORT, z3.Z3_INT_SORT, z3.Z3_REAL_SORT)
+
+    def atom(t):
+        k = t.get_id()
+        if k not in fresh:
+            fresh[k] = z3.Const("abs!%d" % len(fresh), t.sort())
+        return fresh[k]
+
+    def walk(t):
+        k = t.get_id()
+        if k in cache:
+            return cache[k]
+        if z3.is_quantifier(t) or not z3.is_app(t):
+            r = atom(t) if scalar(t.sort()) else None
+        elif not scalar(t.sort()):
+            r = None
+        elif z3.is_int_value(t) or z3.is_rational_value(t) or z3.is_algebraic_value(t):
+            r = t
+        elif t.num_args() == 0:
+            r = t                                    # scalar constant
+        elif t.decl().kind() in _ARITH_KINDS:
+            kids = [walk(c) for c in t.children()]
+            if any(c is None for c in kids):         # (in)equality between arrays / sequences
+                r = atom(t)
+            else:
+                r = t.decl()(*kids)
+        else:
+            r = atom(t)                              # select, seq.len, uninterpreted function, ...
+        cache[k] = r
+        return r
+    out = []
+    for f in formulas:
+        r = walk(f)
+        if r is not None:
+            out.append(r)
+    return out
 
 
 class _Return(Exception):
@@ -119,6 +172,14 @@ class Engine:
 
     def _sync(self):
         fs = self.facts.facts
+        if getattr(self.facts, "intp_active", False):
+            # closure of integrality over the equations of the path condition (see theory.Facts.intp)
+            self.facts.intp_scan(list(self.solver.assertions()))       # formulas seen before are skipped by id
+            done = self._nfacts_pushed
+            while done < len(fs):
+                m = len(fs)
+                self.facts.intp_scan(fs[done:m])
+                done = m
         while self._nfacts_pushed < len(fs):
             self.solver.add(fs[self._nfacts_pushed])
             self._nfacts_pushed += 1
@@ -176,6 +237,23 @@ class Engine:
     def _portfolio(self, extra):
         """second opinions for a query the incremental solver left open: a fresh one-shot z3 solver (different
         strategy), then the z3 4.8 and cvc5 command-line solvers on the SMT-LIB text"""
+        # (a) arithmetic abstraction: every maximal subterm that is not arithmetic / propositional (array reads,
+        # sequence terms, applications of uninterpreted functions, equalities between arrays or sequences) is
+        # replaced by a fresh constant of its sort. The abstraction only forgets facts, so `unsat` carries over.
+        # z3 is weak on integrality (is_int / to_int) as soon as arrays or sequences are in the same query; the
+        # abstracted query is pure mixed integer-real arithmetic, where it is strong.
+        try:
+            fs = _arith_abstraction(list(self.solver.assertions()) + list(extra))
+            sa = z3.Solver()
+            sa.set("timeout", 15000)
+            sa.set("rlimit", 20000000)
+            for f_ in fs:
+                sa.add(f_)
+            if sa.check() == z3.unsat:
+                self.last_backend = "z3-%s(arith-abstraction)" % z3.get_version_string()
+                return z3.unsat, None
+        except z3.Z3Exception:
+            pass
         s = z3.Solver()
         for a_ in self.solver.assertions():
             s.add(a_)
@@ -484,6 +562,8 @@ class Engine:
                 x, y = zreal(a), zreal(b)
                 t = "real"
             e = x + y if isinstance(op, ast.Add) else (x - y if isinstance(op, ast.Sub) else x * y)
+            if isinstance(op, ast.Mult):
+                self._square_facts(e, x, y, t)
             return SV(e, t)
         if isinstance(op, ast.Div):
             y = zreal(b)
@@ -507,6 +587,46 @@ class Engine:
                 return r
             raise Unsupported("** with symbolic exponent")
         raise Unsupported("binop %s" % type(op).__name__)
+
+    def _square_facts(self, e, x, y, t):
+        """x*y where y is x, or x = c*y / y = c*x: facts about the square that nonlinear solvers often do not find"""
+        def const(v):
+            return z3.is_rational_value(v) or z3.is_int_value(v)
+
+        def factors(v):
+            if z3.is_mul(v):
+                out = []
+                for c in v.children():
+                    out.extend(factors(c))
+                return out
+            return [v]
+        if const(x) or const(y):
+            return
+        sq, rest = None, None
+        if x.eq(y):
+            sq, base = e, x
+        else:
+            for a, b in ((x, y), (y, x)):
+                fs = factors(a)
+                idx = [i for i, f in enumerate(fs) if f.eq(b)]
+                if idx and len(fs) > 1:
+                    others = fs[:idx[0]] + fs[idx[0] + 1:]
+                    rest = others[0]
+                    for o in others[1:]:
+                        rest = rest * o
+                    base, sq = b, b * b
+                    break
+        if sq is None:
+            return
+        one = z3.IntVal(1) if t == "int" else z3.RealVal(1)
+        fs = [sq >= 0, (sq == 0) == (base == 0), z3.Implies(z3.Or(base >= one, base <= -one), sq >= one),
+              z3.Implies(z3.And(base > -one, base < one), sq < one)]
+        if rest is not None:
+            fs.append(e == rest * sq)
+            # a positive factor times a square >= 1 is at least the factor
+            fs.append(z3.Implies(z3.And(rest > 0, sq >= one), e >= rest))
+            fs.append(z3.Implies(rest >= 0, e >= 0))
+        self.facts.add(z3.And(*fs))
 
     def branch_quiet(self, cond):
         if self.spec:
@@ -1324,9 +1444,31 @@ class Engine:
             for ci, p in enumerate(inv_parts(ghost)):
                 self.oblige("%s.c%d" % (kind, ci) if len(conjuncts) > 1 else kind, p,
                             note=ast.unparse(conjuncts[ci])[:160])
+        # ---- peeled first iteration (loop spec "peel": True, loops over a key): when the accumulator changes its
+        # type in the first iteration (P = 1; for v in vs: P *= model(v)), the first pass is executed as ordinary
+        # code and the loop rule covers the remaining elements, with `visited` starting at [first]
+        peeled = None
+        if spec.get("peel"):
+            if ckind != "key":
+                raise Unsupported("peel on a loop that is not over a key")
+            if not self.branch(z3.Length(coll.e) > 0):
+                self.loop_pre.pop()
+                return
+            first = coll.e[0]
+            self.facts.label(first)
+            peeled = SV(self.facts.unit(first), "key")
+            self.assign(s.target, SV(first, "label"), fr)
+            try:
+                self.exec_block(s.body, fr)
+            except _Continue:
+                pass
+            except _Break:
+                raise Unsupported("break inside an invariant loop")
         # ---- init
         if ckind == "dict":
             g0 = FO.empty(self, coll.ksort, coll.vsort)
+        elif ckind == "key" and peeled is not None:
+            g0 = peeled
         elif ckind == "key":
             g0 = SV(T.empty_key(), "key")
             self.facts.key(g0.e)
@@ -1373,6 +1515,9 @@ class Engine:
                 rest = self.fresh("key", "rest")
                 i = self.fresh("label", "i")
                 fr.locals[gname] = pre
+                if peeled is not None:
+                    ptail = self.fresh("key", "ptail")
+                    self.assume(pre.e == self.facts.concat(peeled.e, ptail.e))
                 self.assume(inv(pre))
                 pre2 = SV(self.facts.concat(pre.e, self.facts.unit(i.e)), "key")
                 self.assume(coll.e == self.facts.concat(pre2.e, rest.e))
@@ -1912,6 +2057,9 @@ class Engine:
                 v = self.eval(a.value, fr)
                 c = self.concrete_iter(v)
                 if c is None:
+                    if isinstance(v, SV) and v.t == "key" and len(n.args) == 1:
+                        args.append(StarKey(v))      # f(*key): the labels of a symbolic key as the only positional arguments
+                        continue
                     raise Unsupported("*args with symbolic sequence")
                 args.extend(c)
             elif isinstance(a, ast.GeneratorExp):
@@ -1940,6 +2088,8 @@ class Engine:
         return v
 
     def call(self, fn, args, kwargs, fr=None):
+        if any(isinstance(x, StarKey) for x in args) and not isinstance(fn, Closure):
+            raise Unsupported("*key arguments to something that is not a plain function")
         if isinstance(fn, Closure):
             return self.call_closure(fn, args, kwargs)
         if isinstance(fn, BoundMethod):
@@ -1970,13 +2120,18 @@ class Engine:
         params = [p.arg for p in a.posonlyargs + a.args]
         locals_ = {}
         args = list(args)
+        starkey = None
+        if len(args) == 1 and isinstance(args[0], StarKey):
+            if params or a.vararg is None:
+                raise Unsupported("f(*key) where f has positional parameters")
+            starkey, args = args[0].key, []
         if len(args) > len(params) and a.vararg is None:
             raise PyExc("TypeError", "too many arguments")
         for p, v in zip(params, args):
             locals_[p] = v
         rest = args[len(params):]
         if a.vararg is not None:
-            locals_[a.vararg.arg] = tuple(rest)
+            locals_[a.vararg.arg] = tuple(rest) if starkey is None else starkey
         kwargs = dict(kwargs)
         for p in params[len(args):] + [x.arg for x in a.kwonlyargs]:
             if p in kwargs:
